@@ -71,7 +71,7 @@ struct MState {
     long sysVer[NST];
     long qv = 0, uv = 0, zv = 0, qvSeen = 0, uvSeen = 0, zvSeen = 0;
     long long realQv = -1, realUv = -1, realZv = -1;
-    std::vector<double> seenQ, seenU, seenZ; bool haveSeenY = false;   // last observed values (version oracle)
+    std::vector<double> seenQ, seenU, seenZ; bool haveSeenY = false; long long seenQv = -1, seenUv = -1, seenZv = -1;   // last observed values (version oracle)
     bool haveSnap = false; std::vector<long long> realSnap; long snapVer[NST]; int snapStage = 0;
     MState() { for (int i = 0; i < NST; ++i) sysVer[i] = snapVer[i] = 0; }
 
